@@ -114,6 +114,21 @@ func lst(a ...val.V) val.V { return val.V{K: val.List, L: append([]val.V{}, a...
 func (g *pg) pick(label string, n int) int        { return rapid.IntRange(0, n-1).Draw(g.t, label) }
 func (g *pg) chance(label string, oneIn int) bool { return Chance(g.t, label, oneIn) }
 
+// Uniform draws an index in [0,n) with (nearly) equal probabilities; rapid's own integer
+// generators favour small values strongly. The shrink target is index 0.
+func Uniform(t *rapid.T, label string, n int) int {
+	x := rapid.Uint64().Draw(t, label)
+	if x == 0 || n <= 1 {
+		return 0
+	}
+	x ^= x >> 33
+	x *= 0xff51afd7ed558ccd
+	x ^= x >> 33
+	x *= 0xc4ceb9fe1a85ec53
+	x ^= x >> 33
+	return int(x % uint64(n))
+}
+
 // Chance is true with probability ~1/oneIn. rapid's integer generators are heavily
 // biased towards small values (0 comes up ~10% of the time in IntRange(0,299)), so the
 // draw is mixed before it is reduced; the shrink target (0) means "no event".
